@@ -218,15 +218,25 @@ def run_transform(ctx, binary, hists, tag, stats):
     chunks = [hists[i:i + k] for i in range(0, len(hists), k)]
     traces = execute(ctx, binary, [{"config": {}, "histories": c} for c in chunks], tag)
 
-    def one(it):
-        i, ev = it
-        full = judge_transform(ctx, ev, ALLDEV_T, "%s%d" % (tag, i))
-        # what each named deviation is needed for: the same recording judged without it
-        without = {}
+    # every recording is judged with all named deviations accepted (the verdict) and - to see what each deviation is needed
+    # for - once more without each of them (quick: first chunk only)
+    jobs = []
+    for i, ev in enumerate(traces):
+        jobs.append((i, None))
         if ctx.thorough or i == 0:
-            without = {d: judge_transform(ctx, ev, [x for x in ALLDEV_T if x != d], "%s%d-%s" % (tag, i, d))[0] for d in ALLDEV_T}
-        return full, without
-    res = parallel(one, list(enumerate(traces)), n=4)
+            jobs += [(i, d) for d in ALLDEV_T]
+
+    def one(job):
+        i, d = job
+        if d is None:
+            return judge_transform(ctx, traces[i], ALLDEV_T, "%s%d" % (tag, i))
+        return judge_transform(ctx, traces[i], [x for x in ALLDEV_T if x != d], "%s%d-%s" % (tag, i, d))
+    out = parallel(one, jobs, n=8)
+    res = []
+    for i in range(len(traces)):
+        full = next(o for (j, d), o in zip(jobs, out) if j == i and d is None)
+        without = {d: o[0] for (j, d), o in zip(jobs, out) if j == i and d is not None}
+        res.append((full, without))
     for ci, (ev, ((rej, drift), without)) in enumerate(zip(traces, res)):
         sides = [e for e in ev if e.get("ev") in ("req", "resp")]
         refused = [e for e in ev if e.get("ev") == "reset" and e.get("refused")]
@@ -260,6 +270,10 @@ def run_transform(ctx, binary, hists, tag, stats):
                         "rules": [rule_path(o) + ("=" + o["val"][1] if o["kind"] == "set" else "") + " (" + o["kind"] + ")" for o in ev[j]["ops"]],
                         "side": e["ev"], "url_parsed_before": ev[j]["qf"], "in": e["doc_in"], "out": e["doc_out"], "not_permitted": bad[:300]}
         for ln, bad in sorted(rej.items()):
+            if stats.setdefault("reproduced", 0) >= 6:      # every reported violation is reproduced first; a handful is enough
+                stats["unreported"] = stats.get("unreported", 0) + 1
+                continue
+            stats["reproduced"] += 1
             j, e = history_of_line(ev, ln)
             src = next(h for h in chunks[ci] if h[0].get("hid") == ev[j].get("hid"))
             script = [{"config": {}, "histories": [src]}]
@@ -505,6 +519,17 @@ def rand_cache_history(rng, hid, ttl, recmax, maxmb, mode):
             if rng.random() < 0.3:
                 hh["x-resp"] = "r%d" % nresp
             h.append(concrete_response(t, rng.choice([200, 200, 200, 201, 404, 500]), "r%d" % nresp, pad, hh))
+    if mode == "sized":
+        # fill: one large response per key, then every key read back with no write in between (what is served then was held together)
+        fill = [[v] + base[1:] for v in vals[:4]]
+        for k in fill:
+            n += 1
+            h.append(concrete_request(parts, k, n))
+            nresp += 1
+            h.append(concrete_response(n, 200, "r%d" % nresp, rng.choice([600000, 700000, 700000])))
+        for k in fill:
+            n += 1
+            h.append(concrete_request(parts, k, n))
     return h
 
 
@@ -563,6 +588,10 @@ def run_cache(ctx, binary, hists, tag, stats, dev_of):
                 if nontrivial_cache(r):
                     ctx.cov["distinct_nontrivial"] += 1
         for rej in rejected:
+            if stats.setdefault("reproduced", 0) >= 6:
+                stats["unreported"] = stats.get("unreported", 0) + 1
+                continue
+            stats["reproduced"] += 1
             src = next(s for s, r in prs if r[0].get("hid") == rej["hist"][0].get("hid"))
             script = [{"config": {}, "histories": [src]}]
             t2 = execute(ctx, binary, script, tag + "-repro")[0]
@@ -586,7 +615,7 @@ def cache_witness(rej):
     w = {"class": "cache-answer-not-allowed-by-spec", "event": {k: e.get(k) for k in ("ev", "id", "early", "est", "h", "q", "bf", "path")},
          "invariant": rej.get("invariant")}
     if e.get("ev") == "req":
-        w["class"] = "cache-hit-not-permitted" if e.get("early") else "cache-miss-although-surely-stored-and-fresh"
+        w["class"] = "cache-hit-not-accepted" if e.get("early") else "cache-miss-although-surely-stored-and-fresh"
     if rej.get("invariant"):
         w["class"] = "cache-size-bound"
     w["parts"] = h[0].get("parts")
@@ -625,7 +654,8 @@ def run(ctx):
     ok_jobs = [("MC_X02C", "MC_C_quick.cfg"), ("MC_X02C", "MC_C_private.cfg"), ("MC_X02C", "MC_C_join.cfg"), ("MC_X02C", "MC_C_sized.cfg"),
                ("MC_X02T", "MC_T_quick.cfg" if not T else "MC_T_large.cfg")]
     if T:
-        ok_jobs += [("MC_X02C", "MC_C_ttl2.cfg"), ("MC_X02C", "MC_C_large.cfg"), ("MC_X02C", "MC_C_sized_large.cfg"),
+        ok_jobs += [("MC_X02C", "MC_C_ttl2.cfg"), ("MC_X02C", "MC_C_mid.cfg"), ("MC_X02C", "MC_C_large.cfg"), ("MC_X02C", "MC_C_private_large.cfg"),
+                    ("MC_X02C", "MC_C_join_large.cfg"), ("MC_X02C", "MC_C_sized_large.cfg"),
                     ("MC_X02C", "MC_C_benign_ms_ttl.cfg"), ("MC_X02T", "MC_T_benign_set_first.cfg")]
     bad_jobs = [("MC_X02C", "MC_C_bug_ge.cfg"), ("MC_X02C", "MC_C_bug_nokeypart.cfg"), ("MC_X02C", "MC_C_dev_private.cfg"),
                 ("MC_X02C", "MC_C_dev_join.cfg"), ("MC_X02C", "MC_C_withit.cfg"), ("MC_X02C", "MC_C_witexpired.cfg"),
@@ -649,6 +679,9 @@ def run(ctx):
                            label="behaviour generation", count=False, heap="2g")
         return ctx.tlc(sd, mod, cfg, workers=4 if kind == "ok" else 2, timeout=1500,
                        label="I=>P" if kind == "ok" else "non-vacuity (expected refuted)", heap="3g")
+    if os.environ.get("X02_DEV_SKIP_MODEL"):        # development aid for mutation runs (the model does not depend on /repo)
+        ok_jobs, bad_jobs = [], []
+        ctx.notes.append("X02_DEV_SKIP_MODEL set: exhaustive model checking skipped")
     jobs = [(m, c, "ok") for m, c in ok_jobs] + [("MC_X02T", "Gen_T_quick.cfg" if not T else "Gen_T_large.cfg", "gen-t")] + \
            [("GenX02C", c, "gen-c") for c, _ in gens] + [(m, c, "bad") for m, c in bad_jobs]
     results = parallel(mc, jobs, n=8)
@@ -698,6 +731,8 @@ def run(ctx):
     tr = run_transform(ctx, binary, rh, "trand", tstats)
     ctx.log("transform: %d random configurations, %d sides executed" % (len(rh), sum(len(h) - 1 for h in rh)))
     ctx.sample({"kind": "recorded-transform", "rules": [rule_path(o) for o in tr[0][1]["ops"]], "in": tr[0][2]["doc_in"], "out": tr[0][2]["doc_out"]})
+    if tstats.get("unreported"):
+        ctx.notes.append("transform: %d further rejected sides were not reproduced / reported (cap)" % tstats["unreported"])
     if tstats["refused"]:
         ctx.notes.append("transform: %d configurations refused by the loader, e.g. %s" % (tstats["refused"], tstats["refused_examples"][:1]))
     if tstats["drift"]:
@@ -707,7 +742,7 @@ def run(ctx):
     for c, n in sorted(tstats["strict"].items()):
         ctx.notes.append("DOC-CODE DISAGREEMENT (transform, deviation %s): %d recorded sides are accepted only because the deviation is listed, e.g. %s" % (
             c, n, json.dumps(tstats["strict_examples"][c])[:1200]))
-    if set(tstats["strict"]) != set(ALLDEV_T):
+    if not ctx.violations and set(tstats["strict"]) != set(ALLDEV_T):
         raise Broken("not every named deviation of XTransP was needed by a recorded transformation: %s" % sorted(tstats["strict"]))
 
     # (4) cache, spec -> code: walks of the implementation-shaped model replayed on real engines
@@ -749,18 +784,18 @@ def run(ctx):
     rh = []
     for i in range(nh):
         mode = ["plain", "plain", "sized", "private", "join", "plain"][i % 6]
-        ttl = rng.choice([1, 2, 3])
+        # few distinct (ttl, limits): one TLC start per distinct configuration
         if mode == "sized":
-            recmax, maxmb = rng.choice([(-1, 1), (300000, 1), (-1, 0), (1000000, 2)])
+            ttl, recmax, maxmb = rng.choice([(2, -1, 1), (2, 300000, 1), (3, -1, 0), (3, 1000000, 2)] if T else [(2, -1, 1), (3, 300000, 1), (2, -1, 0)])
         else:
-            recmax, maxmb = rng.choice([(-1, 100), (-1, 1), (4000, 1)])
+            ttl, recmax, maxmb = rng.choice([(1, -1, 100), (2, -1, 1), (3, 4000, 1), (2, 4000, 100), (3, -1, 100)] if T else [(1, -1, 100), (2, -1, 1), (3, 4000, 1)])
         h = rand_cache_history(rng, "c%d" % i, ttl, recmax, maxmb, mode)
         h[0]["dev"] = ["private_stores"] if mode == "private" else ["join_key"] if mode == "join" else []
         rh.append(h)
     before = cstats["hits"]
     rec = run_cache(ctx, binary, rh, "crand", cstats, lambda r: r.get("dev", []))
     ctx.log("cache: %d random histories, %d requests answered from the cache" % (len(rh), cstats["hits"] - before))
-    if cstats["hits"] - before < nh // 3:
+    if not ctx.violations and cstats["hits"] - before < nh // 3:
         raise Broken("random cache histories are vacuous: only %d requests answered from the cache" % (cstats["hits"] - before))
     ex = next((r for r in rec if any(e.get("early") for e in r)), rec[0])
     ctx.sample({"kind": "recorded-cache-history", "events": [{k: v for k, v in e.items() if k in ("ev", "id", "ms", "parts", "ttl", "h", "q", "bf", "path", "early", "est", "st")}
@@ -793,12 +828,14 @@ def run(ctx):
                 ctx.notes.append("DOC-CODE DISAGREEMENT (cache, deviation join_key): key parts %s: request %s was answered from the cache with a response "
                                  "stored for DIFFERENT key-part values whose '_'-joined string is the same" % (
                                      json.dumps(r[0]["parts"]), json.dumps({k: e.get(k) for k in ("id", "h", "q", "bf", "early", "ebody")})))
-    if priv and not np_:
+    if priv and not np_ and not ctx.violations:
         raise Broken("private-store histories never needed the deviation private_stores: family is vacuous")
     if pv_hits:
         raise Broken("a private-store engine answered from the cache: the harness does not run the build as it is")
     if T and jn and not nj:
         ctx.notes.append("joined-key family: no collision was served in this run")
+    if cstats.get("unreported"):
+        ctx.notes.append("cache: %d further rejected histories were not reproduced / reported (cap)" % cstats["unreported"])
     if cstats["refused"]:
         ctx.notes.append("cache: %d configurations refused by the loader, e.g. %s" % (cstats["refused"], cstats["refused_examples"][:1]))
 
